@@ -25,15 +25,34 @@ pub struct Replica<C: Cx> {
 }
 
 /// Feed `ops` in `order` to a fresh replica. `Err((position, op id, outcome))` if refused.
-pub fn replay<C: Cx>(ops: &[Op<C>], order: &[usize]) -> Result<State<C>, (usize, u32, String)> {
+pub fn replay<C: Cx>(ops: &[Op<C>], order: &[usize]) -> Result<State<C>, (usize, usize, String, State<C>)> {
     let mut y = State::<C>::new();
     for (pos, &i) in order.iter().enumerate() {
         match process(&y, &ops[i]) {
             Outcome::Ok(n) => y = n,
-            other => return Err((pos, ops[i].id, other.label())),
+            other => return Err((pos, i, other.label(), y)),
         }
     }
     Ok(y)
+}
+
+/// Shape of an acceptance disagreement: does the refusing replica hold an equal-counter tie
+/// (differing accesses, conditions involved) for the operation's author or target? Then whether
+/// the author is a manager there depends on merge order (same root as the answer divergence).
+fn refusal_cause<C: Cx>(y: &State<C>, op: &Op<C>) -> &'static str {
+    let mut who = vec![GroupMember::Individual(op.author)];
+    if let Some(t) = action_target(&op.action) {
+        who.push(t);
+    }
+    if who.iter().any(|m| has_equal_counter_tie(y, op.group, *m)) {
+        "equal-counters"
+    } else if has_any_equal_counter_tie(y) {
+        "equal-counters-elsewhere"
+    } else if C::WITH {
+        "other:with-conditions"
+    } else {
+        "without-conditions"
+    }
 }
 
 fn member_of(d: &Diff) -> GroupMember<char> {
@@ -52,13 +71,19 @@ pub fn classify<C: Cx>(diffs: &[Diff], ya: &State<C>, yb: &State<C>, any_conditi
         return (kind, "transitive-only:with-conditions");
     }
     let kind = root.iter().map(|d| d.kind).max().unwrap();
-    if kind == DiffKind::Membership {
-        return (kind, "other");
+    let all_tied = kind != DiffKind::Membership
+        && root.iter().filter(|d| d.kind == kind).all(|d| {
+            has_equal_counter_tie(ya, d.group, member_of(d)) || has_equal_counter_tie(yb, d.group, member_of(d))
+        });
+    if all_tied {
+        return (kind, "equal-counters");
     }
-    let all_tied = root.iter().filter(|d| d.kind == kind).all(|d| {
-        has_equal_counter_tie(ya, d.group, member_of(d)) || has_equal_counter_tie(yb, d.group, member_of(d))
-    });
-    (kind, if all_tied { "equal-counters" } else { "other" })
+    // A tie on another member (e.g. the author of a later operation) cascades: whether that
+    // author was a manager, hence whether its operations apply, depends on merge order.
+    if has_any_equal_counter_tie(ya) || has_any_equal_counter_tie(yb) {
+        return (kind, "equal-counters-elsewhere");
+    }
+    (kind, "other")
 }
 
 fn history_has_conditions<C: Cx>(ops: &[Op<C>]) -> bool {
@@ -107,6 +132,11 @@ fn run_case<C: Cx>(args: &Args, case: u64, rep: &mut Report, sig_counts: &mut BT
     let params = Params::random(&mut rng, 0.0, small);
     let h = generate::<C>(&mut rng, params.clone());
     let ops = &h.ops;
+    if std::env::var("VH_TRACE").map(|v| v == "2").unwrap_or(false) {
+        for o in ops {
+            eprintln!("  {}", op_json(o));
+        }
+    }
     let any_conditions = history_has_conditions(ops);
     let base = json!({
         "seed": args.seed, "case": case, "conditions": C::NAME,
@@ -117,10 +147,14 @@ fn run_case<C: Cx>(args: &Args, case: u64, rep: &mut Report, sig_counts: &mut BT
     let ops_json = || json!(ops.iter().map(op_json).collect::<Vec<_>>());
 
     for (replica, op, label) in &h.disagreements {
+        let y = &h.actors.iter().find(|a| a.id == *replica).unwrap().y;
+        let the_op = ops.iter().find(|o| o.id == *op).unwrap();
+        let cause = if label.starts_with("panic") { "panic" } else { refusal_cause(y, the_op) };
         rep.violation(
-            "C31:acceptance-differs",
+            &format!("C31:acceptance-differs:{cause}"),
             format!("operation {op} was accepted by its author's replica and refused ({label}) by replica {replica} that had processed its causal past"),
-            json!({"base": base, "ops": ops_json(), "replica": replica.to_string(), "op": op, "outcome": label}),
+            json!({"base": base, "ops": ops_json(), "replica": replica.to_string(), "op": op_json(the_op), "outcome": label,
+                   "refusing_replica_processed": h.actors.iter().find(|a| a.id == *replica).unwrap().seen.iter().map(|i| ops[*i].id).collect::<Vec<_>>()}),
         );
     }
 
@@ -139,12 +173,12 @@ fn run_case<C: Cx>(args: &Args, case: u64, rep: &mut Report, sig_counts: &mut BT
                 let answers = (0..REPEAT).map(|_| answers(&y, &h.groups)).collect();
                 replicas.push(Replica { order: order.clone(), y, answers });
             }
-            Err((pos, op, label)) => {
-                let sig = if label.starts_with("panic") { "C31:replay-panic" } else { "C31:acceptance-differs" };
+            Err((pos, i, label, y)) => {
+                let cause = if label.starts_with("panic") { "panic" } else { refusal_cause(&y, &ops[i]) };
                 rep.violation(
-                    sig,
-                    format!("a fresh replica fed the accepted history in a causal order did not accept operation {op} at position {pos}: {label}"),
-                    json!({"base": base, "ops": ops_json(), "order": ids(ops, order), "op": op, "outcome": label}),
+                    &format!("C31:acceptance-differs:{cause}"),
+                    format!("a fresh replica fed the accepted history in a causal order did not accept operation {} at position {pos}: {label}", ops[i].id),
+                    json!({"base": base, "ops": ops_json(), "order": ids(ops, order), "op": op_json(&ops[i]), "outcome": label}),
                 );
             }
         }
@@ -168,7 +202,10 @@ fn run_case<C: Cx>(args: &Args, case: u64, rep: &mut Report, sig_counts: &mut BT
 
     let mut report = |rep: &mut Report, prefix: &str, diffs: &[Diff], ra: &Replica<C>, rb: &Replica<C>, a: &Answers, b: &Answers| {
         let (kind, cause) = classify(diffs, &ra.y, &rb.y, any_conditions);
-        let sig = format!("C31:{prefix}:{}:{cause}", kind.tag());
+        // One signature family for both clauses of the statement (across replicas / repeated
+        // queries on one replica): the `what` line says which one was observed.
+        let sig = format!("C31:diverge:{}:{cause}", kind.tag());
+        rep.bump(if prefix == "diverge" { "observed_cross_replica_divergences" } else { "observed_repeated_query_instabilities" }, 1);
         let c = sig_counts.entry(sig.clone()).or_insert(0);
         *c += 1;
         let d0 = diffs.iter().find(|d| d.kind == kind).unwrap();
@@ -201,6 +238,27 @@ fn run_case<C: Cx>(args: &Args, case: u64, rep: &mut Report, sig_counts: &mut BT
         }
         rep.violation(&sig, what, w);
     };
+
+    // Transitive queries that were not issued because the merged group graph has a nesting cycle.
+    if let Some(r) = replicas.iter().find(|r| !r.answers[0].1.is_empty()) {
+        rep.bump("histories_with_nesting_cycle_blowup", 1);
+        let (g, log2) = r.answers[0].1.iter().max_by_key(|(_, l)| **l).map(|(g, l)| (*g, *l)).unwrap();
+        // One real probe per process backs the prediction (see `model::probe_blowup`).
+        let probe_returned = BLOWUP_PROBE_RETURNED.get().cloned().unwrap_or(false);
+        rep.extra("nesting_cycle_probe_returned_within_2s", json!(probe_returned));
+        if log2 >= 40 && !probe_returned {
+            rep.violation(
+                &format!("C31:query-does-not-return:nested-group-cycle:{}", if any_conditions { "with-conditions" } else { "without-conditions" }),
+                format!(
+                    "after concurrent Add operations (each valid at its own dependencies) the merged state nests groups in a cycle; members({g}) recurses without a visited set up to depth 1000: ~2^{log2} recursive visits, the query does not return"
+                ),
+                json!({"base": base, "ops": ops_json(), "order": ids(ops, &r.order), "group": g.to_string(), "predicted_visits_log2": log2,
+                       "direct_memberships": answers_json(&r.answers[0])}),
+            );
+        } else {
+            rep.bump("slow_transitive_queries_skipped_not_judged", 1);
+        }
+    }
 
     // (b) repeated queries on one replica.
     let mut unstable = 0u64;
@@ -251,10 +309,15 @@ pub fn run(args: &Args) {
          orders; distinct = hash of the operation list.",
         if cfg!(miri) { 1 } else { 40 },
     );
-    let n = if cfg!(miri) { 2 } else { args.n(150, 15000) };
+    let n = if cfg!(miri) { 2 } else { args.n(1000, 30000) };
     let mode = args.param("cond").unwrap_or("both").to_string();
     let mut sig_counts = BTreeMap::new();
-    for case in 0..n {
+    let trace = std::env::var("VH_TRACE").is_ok();
+    let first = args.param_u64("from", 0);
+    for case in first..n {
+        if trace {
+            eprintln!("case {case} t={:.1}s", rep.elapsed().as_secs_f64());
+        }
         let with = match mode.as_str() {
             "none" => false,
             "u8" => true,
